@@ -173,7 +173,14 @@ async def run_history(loop: vclock.VLoop, hist: dict) -> dict:
                 sent = "ok" if pkt is not None else "none"
             except Exception as e:  # noqa: BLE001
                 sent = f"{type(e).__name__}: {e}"[:200]
-            obs["probe"] = {"device_created": dev is not None, "temperature": temp, "send": sent, "frames_written": len(port.tx_log) - n0}
+            # the regulator (1 % duty cycle) may hold the frame back for longer than the send FSM waits for its echo - e.g. when
+            # discovery has been polling a silent ether: 'can still send' means the frame reaches the port, however late
+            for _ in range(120):
+                if any(" 313F " in f for _, f in port.tx_log[n0:]):
+                    break
+                await asyncio.sleep(1.0)
+            obs["probe"] = {"device_created": dev is not None, "temperature": temp, "send": sent,
+                            "frames_written": sum(1 for _, f in port.tx_log[n0:] if " 313F " in f)}
         obs["final_engine_state"] = engine_state(gwy)
         obs["schema"] = gwy.schema
         obs["n_devices"] = len(gwy.devices)
